@@ -18,15 +18,15 @@ _ACCIDENTAL_TAG = re.compile(r"\{\{.*\}\}|\{%.*%\}|\{#.*#\}", re.S)
 
 CONTEXTS = [
     {
-        "v_int": 7, "v_zero": 0, "v_str": "hello", "v_html": "<b>&\"x'</b>", "v_list": [1, 2, 3], "v_tuple": ("t1", "t2"), "v_empty": [],
+        "flagx": "FX-var", "flagy": 0, "v_int": 7, "v_zero": 0, "v_str": "hello", "v_html": "<b>&\"x'</b>", "v_list": [1, 2, 3], "v_tuple": ("t1", "t2"), "v_empty": [],
         "v_dict": {"a": 1, "b": "two"}, "v_dict2": {"c-d": [1], "@e": None}, "v_none": None, "v_nested": {"k": {"z": [10, 20]}}, "v_t": True, "v_f": False,
     },
     {
-        "v_int": -3, "v_zero": 0, "v_str": "Wörld x", "v_html": "a&b", "v_list": ["p", "q"], "v_tuple": (), "v_empty": [],
+        "flagx": ["fx"], "flagy": "FY-var", "v_int": -3, "v_zero": 0, "v_str": "Wörld x", "v_html": "a&b", "v_list": ["p", "q"], "v_tuple": (), "v_empty": [],
         "v_dict": {"b": 5, "zz": [1, {"y": 2}]}, "v_dict2": {}, "v_none": None, "v_nested": {"k": {"z": []}}, "v_t": True, "v_f": False,
     },
     {
-        "v_int": 10 ** 12, "v_zero": 0, "v_str": "", "v_html": "<i>", "v_list": [[1], [2, 3]], "v_tuple": (1,), "v_empty": [],
+        "flagx": None, "flagy": {"f": 1}, "v_int": 10 ** 12, "v_zero": 0, "v_str": "", "v_html": "<i>", "v_list": [[1], [2, 3]], "v_tuple": (1,), "v_empty": [],
         "v_dict": {"a": None}, "v_dict2": {"k k": 1}, "v_none": None, "v_nested": {"k": {"z": [0]}}, "v_t": True, "v_f": False,
     },
 ]
@@ -268,7 +268,12 @@ class Gen:
                 if k in used or k in agg_used:
                     continue
                 used.add(k)
-                out.append(["kw", k, self.expr()])
+                if rng.random() < 0.06:
+                    # the VALUE is a variable named like one of the tag's flags: still a keyword argument
+                    self.features.add("kwarg-value-named-like-flag")
+                    out.append(["kw", k, ["var", rng.choice(FLAGS)]])
+                else:
+                    out.append(["kw", k, self.expr()])
         if allow_flags:
             for f in FLAGS:
                 if rng.random() < 0.15:
